@@ -41,6 +41,9 @@ def spec(tier, seed):
                     functions=["rcgen::date_time_ymd"], shape="every possible calendar date in years -9999..=9999 (impossible dates are the documented panic)"))
     qs.append(Query(name="c10_acme", body="    c10::acme_identifier();", unwind=40, family="acme_identifier", field_sens=64,
                     functions=["rcgen::CustomExtension::new_acme_identifier"], shape="every 32-byte digest (other lengths are the documented panic)"))
+    # CidrSubnet::from_v4_prefix / from_v6_prefix for every prefix (a constructible name-constraint parameter): no overflow, no panic
+    import c02_units
+    qs += c02_units.cidr_queries("c10")
     return {"queries": qs, "mir": run_mir, "exhaustive": False,
             "bounds": "parsing half (engine M): no panic site (diverging call, unwrap / expect on a possible Err / None, failing bounds / overflow check, "
                       "out-of-range slice index) is reachable in CertificateSigningRequestParams::from_der, CertificateParams::from_ca_cert_der and its "
